@@ -1,107 +1,147 @@
 /*
- * unix_write_blk64 / unix_read_blk64 / unix_write_byte / unix_flush / unix_zeroout against the
- * single-cell coherence abstraction (see cache_common.h).  The device (raw_read_blk, raw_write_blk)
- * and flush_cached_blocks are replaced by the contracts their own units enforce; find_cached_block
- * and reuse_cache are the REAL functions.  Loop bounds: WRITE_DIRECT_SIZE = 4 blocks go through the
- * cache, CACHE_SIZE = 8 entries (constants of the code) => complete with unwinding assertions.
+ * unix_write_blk64 / unix_read_blk64 against the single-cell coherence abstraction (see cache_common.h), STRICTLY
+ * modular: find_cached_block, reuse_cache, flush_cached_blocks, raw_read_blk, raw_write_blk and memcpy are all replaced
+ * by the contracts their own units enforce (cache.c, raw.c); the `while (count > 0)` loops carry in-place loop contracts
+ * (named anchors in lib/ext2fs/unix_io.c, invariant text below).
+ *
+ * Each function has ONE contract; it is enforced by several harnesses that partition the requests:
+ *   *_cached : 1 <= count <= WRITE_DIRECT_SIZE (4), cache on        -> the loop
+ *   *_direct : count < 0 (byte count) or count > 4, or IO_FLAG_NOCACHE -> flush (+invalidate) and one device request
  */
 /* VERIF-UNIT
 {
  "name": "unix_write_blk64",
  "props": ["C17"],
- "level": "U/k",
+ "level": "U",
  "tier": "wip",
- "harness": "h_write",
+ "harness": "h_write_cached",
  "enforce": ["unix_write_blk64"],
- "replace": ["raw_write_blk", "flush_cached_blocks"],
- "unwind": 9,
- "unwindset": {"build_channel.0": 9, "find_cached_block.0": 9, "unix_write_blk64.0": 5},
- "unwind_reason": "cached path only for 1..WRITE_DIRECT_SIZE(4) blocks; CACHE_SIZE is 8",
+ "replace": ["find_cached_block", "reuse_cache", "flush_cached_blocks", "raw_write_blk", "memcpy"],
+ "loop_contracts": true,
+ "unwind": 64,
+ "unwindset": {"build_channel.0": 9},
+ "unwind_reason": "only the harness loop that builds the 8 cache entries and DFCC library loops are unwound; the function's loop is closed by its loop contract",
  "defines": ["CFG_BS=16"],
- "functions": ["lib/ext2fs/unix_io.c:unix_write_blk64", "lib/ext2fs/unix_io.c:find_cached_block", "lib/ext2fs/unix_io.c:reuse_cache"],
- "assumes": ["IO_FLAG_THREADS clear", "no write_error handler installed", "block size fixed to 16 bytes for this unit (the function only scales buffer offsets by it)", "fewer than 2^31 cache accesses", "caller's buffer does not alias a cache buffer"],
+ "functions": ["lib/ext2fs/unix_io.c:unix_write_blk64"],
+ "assumes": ["IO_FLAG_THREADS clear", "no write_error handler installed", "block size in {16, 1024}: 16 is a configuration bound for tractability (the function only adds the block size to a cursor and passes it on as a length), 1024 the smallest real block size", "fewer than 2^31-512 cache accesses per channel (int access clock)", "caller's buffer does not alias a cache buffer", "block numbers below 2^46", "CHANNEL_FLAGS_WRITETHROUGH is set before any block is dirtied (nothing in the tree toggles it)"],
  "backend": "cadical",
- "timeout": 400,
- "cbmc_flags": ["--object-bits", "12"],
+ "timeout": 300,
  "native": false
 }
 */
 /* VERIF-UNIT
 {
- "name": "unix_read_blk64",
+ "name": "unix_write_blk64_direct",
  "props": ["C17"],
- "level": "U/k",
+ "level": "U",
  "tier": "wip",
- "harness": "h_read",
- "enforce": ["unix_read_blk64"],
- "replace": ["raw_write_blk", "raw_read_blk", "flush_cached_blocks"],
- "unwind": 9,
- "unwindset": {"build_channel.0": 9, "find_cached_block.0": 9, "unix_read_blk64.0": 5, "unix_read_blk64.1": 5, "unix_read_blk64.2": 5},
- "unwind_reason": "cached path only for 1..READ/WRITE_DIRECT_SIZE(4) blocks; CACHE_SIZE is 8",
+ "harness": "h_write_direct",
+ "enforce": ["unix_write_blk64"],
+ "replace": ["find_cached_block", "reuse_cache", "flush_cached_blocks", "raw_write_blk", "memcpy"],
+ "loop_contracts": true,
+ "unwind": 64,
+ "unwindset": {"build_channel.0": 9},
+ "unwind_reason": "only the harness loop that builds the 8 cache entries and DFCC library loops are unwound",
  "defines": ["CFG_BS=16"],
- "functions": ["lib/ext2fs/unix_io.c:unix_read_blk64", "lib/ext2fs/unix_io.c:find_cached_block", "lib/ext2fs/unix_io.c:reuse_cache"],
- "assumes": ["IO_FLAG_THREADS clear", "no read_error/write_error handler installed", "block size fixed to 16 bytes for this unit", "fewer than 2^31 cache accesses"],
+ "functions": ["lib/ext2fs/unix_io.c:unix_write_blk64"],
+ "assumes": ["IO_FLAG_THREADS clear", "no write_error handler installed", "block size in {16, 1024} (16: configuration bound)", "requests of at most 8 blocks / 8*block_size bytes (the path is one flush and one device request whatever the size)", "block numbers below 2^46"],
  "backend": "cadical",
- "timeout": 400,
- "cbmc_flags": ["--object-bits", "12"],
+ "timeout": 300,
  "native": false
 }
 */
+
+/* ---- invariant of unix_write_blk64's loop (expanded inside the real function: channel, block, count, buf, data, cache,
+ *      reuse, retval, cp, writethrough are its variables) ---- */
+#define W_DONE ((unsigned long long)(g_count0 - count))
+#define W_PASSED (g_covered && block > g_bstar)
+#define VERIF_INV_UNIX_WRITE_BLK64_CACHE \
+	__CPROVER_assigns(count, block, cp, cache, reuse, GALL_ENTRY_FIELDS, \
+		DATA.access_time, DATA.io_stats.bytes_written, g_disk, g_nwrites, g_wfail, GALL_CBUFS) \
+	__CPROVER_loop_invariant(0 <= count && count <= g_count0 && block == g_block0 + W_DONE) \
+	__CPROVER_loop_invariant(cp == (const char *)buf + W_DONE * CFG_BS) \
+	__CPROVER_loop_invariant(DATA.access_time >= 0 && DATA.access_time + 2 * count <= 0x7ffffe10) \
+	__CPROVER_loop_invariant(writethrough ? !ANY(GINUSE_DIRTY) : retval == 0) \
+	__CPROVER_loop_invariant((g_wfail != 0) == (retval != 0)) \
+	__CPROVER_loop_invariant( \
+		(g_covered && !W_PASSED && writethrough) ? (GNMATCH <= 1 && (retval != 0 || g_disk == g_new)) : \
+		(W_PASSED && retval != 0) ? 1 : GCOHERENT_L(W_PASSED ? g_new : g_logical)) \
+	__CPROVER_decreases(count)
+
 #include "cache_common.h"
 
-int g_covered;		/* ghost: the write range covers L* */
-unsigned char g_new;	/* ghost: the byte the caller writes at L* */
-
-#define MAXBLK 8
-static unsigned char UBUF[MAXBLK * CFG_BS];	/* the caller's buffer */
-
+#define PD(ch) ((struct unix_private_data *)(ch)->private_data)
+#define ATIME_ENTRY(d) ((d)->access_time >= 0 && (d)->access_time < 0x7ffffe00)
+#define BLK_MAX (1ULL << 46)
+#define WT(ch) ((ch)->flags & CHANNEL_FLAGS_WRITETHROUGH)
+#define data PD(channel)	/* the frame macros speak of `data` */
+#define CACHE_FRAME ALL_ENTRY_FIELDS, data->access_time, ALL_CBUFS
+/*
+ * C17, write side.  Statement (from the property, not from the code):
+ *   coherent before => after a successful write the cache/device pair is coherent w.r.t. the byte just written when the
+ *   request covers L* (so every later read returns it), w.r.t. the old byte otherwise;
+ *   write-through => the device itself holds the new byte on return;
+ *   a failed device write (of this request or of a victim evicted on its behalf) is reported to the caller;
+ *   a failed request that does not cover L* leaves L* coherent.
+ */
 static errcode_t unix_write_blk64(io_channel channel, unsigned long long block, int count, const void *buf)
-	REQUIRES(coherent((struct unix_private_data *)channel->private_data) && channel->write_error == 0)
+	REQUIRES(channel->magic == EXT2_ET_MAGIC_IO_CHANNEL && PD(channel)->magic == EXT2_ET_MAGIC_UNIX_IO_CHANNEL)
+	REQUIRES(coherent(PD(channel)) && bufs_tied(PD(channel)) && channel->write_error == 0 && !(PD(channel)->flags & IO_FLAG_THREADS))
+	REQUIRES(ATIME_ENTRY(PD(channel)) && block < BLK_MAX && count != 0)
+	REQUIRES(!WT(channel) || !any_dirty(PD(channel)))
+	REQUIRES(g_block0 == block && g_count0 == count && g_wfail == 0)
 	REQUIRES(g_covered == (COVERS(channel, block, count) != 0) && (!g_covered || g_new == BUF_AT(channel, block, count, buf)))
-	/* success: the cache/device pair is coherent w.r.t. the byte just written (g_new) when the range covers L* */
-	ENSURES(RET != 0 || coherent_l((struct unix_private_data *)channel->private_data, g_covered ? g_new : g_logical))
-	ENSURES(RET != 0 || !(channel->flags & CHANNEL_FLAGS_WRITETHROUGH) || !g_covered || g_disk == g_new)
-	/* a failed device write is reported to the caller */
+	ENSURES(RET != 0 || coherent_l(PD(channel), g_covered ? g_new : g_logical))
+	ENSURES(RET != 0 || !WT(channel) || !g_covered || g_disk == g_new)
 	ENSURES(!g_wfail || RET != 0)
-	ASSIGNS(__CPROVER_object_whole(channel->private_data), g_disk, g_nwrites, g_wfail);
+	ENSURES(RET == 0 || g_covered || coherent(PD(channel)))
+	ENSURES(!WT(channel) || !any_dirty(PD(channel)))
+	ASSIGNS(CACHE_FRAME, PD(channel)->io_stats.bytes_written, g_disk, g_nwrites, g_wfail);
+#undef data
 
-void h_write(void)
+static unsigned char *UBUF;	/* the caller's buffer */
+
+static void write_common(void)
 {
-	build_channel();
 	struct unix_private_data *data = &DATA;
-	ASSUME(IN.count != 0 && IN.count >= -(MAXBLK * CFG_BS) && IN.count <= MAXBLK);
-	ASSUME(IN.block < 0x1000000ULL);
-#ifndef VERIF_NATIVE
-	__CPROVER_havoc_object(UBUF);
-#endif
-	g_covered = COVERS(&CH, IN.block, IN.count);
-	g_new = g_covered ? BUF_AT(&CH, IN.block, IN.count, UBUF) : 0;
+	ASSUME(IN.block < BLK_MAX && IN.bstar < BLK_MAX);
+	ASSUME(!(CH.flags & CHANNEL_FLAGS_WRITETHROUGH) || !any_dirty(data));
+	unsigned long long sz = WR_SIZE(&CH, IN.count);
+	UBUF = malloc(sz);
+	ASSUME(UBUF != 0);
+	g_block0 = IN.block; g_count0 = IN.count;
+	g_covered = COVERS(&CH, IN.block, IN.count) != 0;
+	if (g_covered) {
+		UBUF[OFF_AT(&CH, IN.block)] = IN.newbyte;
+		g_new = IN.newbyte;
+	} else
+		g_new = 0;
+	unsigned char old_logical = g_logical;
 	errcode_t r = unix_write_blk64(&CH, IN.block, IN.count, UBUF);
+	/* the byte most recently written to L* through the channel */
 	if (r == 0 && g_covered)
 		g_logical = g_new;
-	CHECK(r != 0 || coherent(data), "after a successful write a read of L* returns the byte just written (cache coherent with device)");
+	CHECK(r != 0 || coherent(data), "after a successful write the cache/device pair is coherent: a read of L* returns the byte just written");
 	CHECK(r != 0 || !(CH.flags & CHANNEL_FLAGS_WRITETHROUGH) || g_disk == g_logical, "write-through: the device holds the data on return");
 	CHECK(!g_wfail || r != 0, "a failed device write is reported to the caller");
+	CHECK(r == 0 || g_covered || (g_logical == old_logical && coherent(data)), "a failed write elsewhere leaves L* coherent");
+}
+
+void h_write_cached(void)
+{
+	build_channel();
+	ASSUME(IN.count >= 1 && IN.count <= WRITE_DIRECT_SIZE);
+	ASSUME(!(DATA.flags & IO_FLAG_NOCACHE));
+	write_common();
 	REACH("end");
 }
 
-static errcode_t unix_read_blk64(io_channel channel, unsigned long long block, int count, void *buf)
-	REQUIRES(coherent((struct unix_private_data *)channel->private_data) && channel->write_error == 0 && channel->read_error == 0)
-	ENSURES(RET != 0 || coherent((struct unix_private_data *)channel->private_data))
-	ENSURES(RET != 0 || !COVERS(channel, block, count) || BUF_AT(channel, block, count, buf) == g_logical)
-	ENSURES(!g_wfail || RET != 0)
-	ASSIGNS(__CPROVER_object_whole(channel->private_data), __CPROVER_object_whole(buf), g_disk, g_nwrites, g_nreads, g_wfail);
-
-void h_read(void)
+#define MAXBLK 8
+void h_write_direct(void)
 {
 	build_channel();
-	struct unix_private_data *data = &DATA;
-	ASSUME(IN.count != 0 && IN.count >= -(MAXBLK * CFG_BS) && IN.count <= MAXBLK);
-	ASSUME(IN.block < 0x1000000ULL);
-	errcode_t r = unix_read_blk64(&CH, IN.block, IN.count, UBUF);
-	CHECK(r != 0 || !COVERS(&CH, IN.block, IN.count) || BUF_AT(&CH, IN.block, IN.count, UBUF) == g_logical,
-	      "a read returns the most recently written byte at L*");
-	CHECK(r != 0 || coherent(data), "read keeps the cache coherent");
-	CHECK(!g_wfail || r != 0, "a failed device write (eviction) is reported to the caller");
+	ASSUME(IN.count != 0 && IN.count >= -(int)(MAXBLK * IN.block_size) && IN.count <= MAXBLK);
+	ASSUME((DATA.flags & IO_FLAG_NOCACHE) || IN.count < 0 || IN.count > WRITE_DIRECT_SIZE);
+	write_common();
 	REACH("end");
 }
